@@ -69,6 +69,8 @@ pub enum Op {
     SetFees { fees: [String; 3] },
     Donate { amount: u128 },
     DepositWithdraw { amount: u128 },
+    /// hostile: Withdraw {} (token-factory entry point) called directly with a native coin attached
+    WithdrawDirect { junk: bool, amount: u128 },
 }
 
 #[derive(Serialize, Deserialize, Clone, Debug, PartialEq)]
@@ -423,7 +425,7 @@ impl Scenario for VaultScen {
         let n = cfg.n_users;
         let mut bals: Vec<(&str, Vec<Coin>)> = vec![];
         for u in USERS.iter().take(n) {
-            let mut cs = vec![coin(10u128.pow(12), "uyyy")];
+            let mut cs = vec![coin(10u128.pow(12), "uyyy"), coin(1_000_000, "ujunk")];
             if cfg.kind == Kind::Native {
                 cs.push(coin(cfg.user_funds, "uxxx"));
             }
@@ -579,6 +581,7 @@ impl Scenario for VaultScen {
                 let sent = match rng.below(10) { 0 => amount.saturating_sub(1), 1 => amount.saturating_add(1), 2 => 0, _ => amount };
                 Op::Deposit { amount, sent }
             }
+            1 if rng.chance(1, 8) => Op::WithdrawDirect { junk: rng.chance(1, 2), amount: *rng.pick(&[1u128, 1000, 1001, 999_999]) },
             1 => Op::Withdraw { lp: if ulp == 0 { rng.range128(0, 5) } else { match rng.below(4) { 0 => ulp, 1 => 1, _ => rng.edge_amount(ulp) } } },
             2 => {
                 let avail = o.bal;
@@ -741,6 +744,18 @@ pub fn apply(s: &mut VaultScen, step: &Step, ctx: &mut Ctx) {
         }
         Op::Withdraw { lp } => {
             do_withdraw(s, ctx, actor, *lp, step.fault, "withdraw");
+        }
+        Op::WithdrawDirect { junk, amount } => {
+            let denom = if *junk { "ujunk" } else { "uyyy" };
+            let r = tx(&mut s.app, who, vec![wasm_exec(&s.vault, &vault::ExecuteMsg::Withdraw {}, vec![coin(*amount, denom)])], Fault::None);
+            ctx.op("withdraw_direct_with_coin", r.outcome.kind());
+            let Ok(after) = s.observe() else { ctx.fail("C05", "solvency", "queries_fail", None, "after direct withdraw".into()); return; };
+            ctx.trace(&format!("withdraw_direct:{}:{}", r.outcome.kind(), after.bal));
+            if r.outcome.is_ok() {
+                ctx.eval("C05");
+                ctx.fail("C05", "withdraw_needs_lp", "native_coin_accepted_as_lp", None, format!("vault Withdraw {{}} with {amount}{denom} attached succeeded although the vault's LP token is a cw20; balance {} -> {}", before.bal, after.bal));
+            }
+            global_invariants(s, ctx, &before, &after, r.outcome.is_ok(), "withdraw_direct_with_coin", None);
         }
         Op::Collect => {
             let msg = wasm_exec(&s.vault, &vault::ExecuteMsg::CollectProtocolFees {}, vec![]);
@@ -985,7 +1000,9 @@ fn do_loan(s: &mut VaultScen, ctx: &mut Ctx, actor: usize, router: bool, amount:
             // bug-compatible bound for the share price: backing' >= backing + top-level flash fee - inner protocol fees
             let back_b = before.bal.saturating_sub(before.pending);
             let back_a = after.bal.saturating_sub(after.pending);
-            if !has_withdraw && after.share == before.share && u256(back_a) + u256(inner_p) >= u256(back_b) {
+            // (also with share withdrawals inside the callback: adding the leaked inner protocol
+            // fees back restores the monotonicity of the price)
+            if (u512(back_a) + u512(inner_p)) * u512(before.share) >= u512(back_b) * u512(after.share) {
                 known_price = Some("D4");
             }
         }
